@@ -110,7 +110,7 @@ def shrink_candidates(scn):
         yield s
 
 
-RUNS = {"quick": 1500, "thorough": 60000}
+RUNS = {"quick": 1500, "thorough": 18000}
 RULE = ("one evaluation = one seeded world executed twice: at clock rate k and at rate k*kappa "
         "(kappa a power of two in half of the runs, log-uniform otherwise; rates kept in "
         "[1e-16, 1e3]), with the same seeded op list (partition, interleaving, faulted updates and "
